@@ -131,6 +131,94 @@ Theorem C16_slice_wrong_type : forall (s : list (obj (list value))) r l lo hi, n
   exists e, astep s (Slice r lo hi) = (s, RErr e).
 Proof. exact slice_wrong_type. Qed.
 
+(* ---------------------------------------------------------------- maps and sets are finite maps and finite sets *)
+
+(* m[k] = v, then reading: the new value at k, every other key untouched, keys stay distinct,
+   the size grows exactly when k was absent. *)
+Theorem C16_map_set_get : forall m k v, assoc k (map_set k v m) = Some v.
+Proof. exact assoc_map_set_same. Qed.
+Theorem C16_map_set_frame : forall m k k' v, k' <> k -> assoc k' (map_set k v m) = assoc k' m.
+Proof. exact assoc_map_set_other. Qed.
+Theorem C16_map_set_wf : forall m k v, keys_nodup (map fst m) = true -> keys_nodup (map fst (map_set k v m)) = true.
+Proof. exact map_set_nodup. Qed.
+Theorem C16_map_set_len : forall m k v,
+  length (map_set k v m) = match assoc k m with Some _ => length m | None => S (length m) end.
+Proof. exact map_set_length. Qed.
+
+(* delete / pop *)
+Theorem C16_map_del_get : forall m k, keys_nodup (map fst m) = true -> assoc k (map_del k m) = None.
+Proof. exact assoc_map_del_same. Qed.
+Theorem C16_map_del_frame : forall m k k', k' <> k -> assoc k' (map_del k m) = assoc k' m.
+Proof. exact assoc_map_del_other. Qed.
+Theorem C16_map_del_wf : forall m k, keys_nodup (map fst m) = true -> keys_nodup (map fst (map_del k m)) = true.
+Proof. exact map_del_nodup. Qed.
+Theorem C16_map_del_len : forall m k, keys_nodup (map fst m) = true ->
+  length (map_del k m) = match assoc k m with Some _ => pred (length m) | None => length m end.
+Proof. exact map_del_length. Qed.
+
+(* update: the other map's entries win, everything else stays *)
+Theorem C16_map_update_get : forall o m k, keys_nodup (map fst o) = true ->
+  assoc k (map_update m o) = match assoc k o with Some v => Some v | None => assoc k m end.
+Proof. exact assoc_map_update. Qed.
+Theorem C16_map_update_wf : forall o m, keys_nodup (map fst m) = true -> keys_nodup (map fst (map_update m o)) = true.
+Proof. exact map_update_nodup. Qed.
+
+(* keys(): the keys, each once, in increasing order *)
+Theorem C16_map_keys : forall m, Permutation (sorted_keys m) (map fst m) /\ Sorted.StronglySorted key_le (sorted_keys m).
+Proof. intro m. split; [apply sorted_keys_perm | apply sorted_keys_sorted]. Qed.
+
+(* sets: add, remove, union, intersection in terms of membership by hash key *)
+Theorem C16_set_add_mem : forall s x k, hashkey x = Some k -> hkey_eqb k k = true -> set_find k (set_add x s) = Some x.
+Proof. exact set_find_add_same. Qed.
+Theorem C16_set_add_frame : forall s x k k', hashkey x = Some k -> hkey_eqb k k' = false ->
+  set_find k' (set_add x s) = set_find k' s.
+Proof. exact set_find_add_other. Qed.
+Theorem C16_set_remove_mem : forall s k, hkeys_nodup s = true -> set_find k (set_del k s) = None.
+Proof. exact set_find_del_same. Qed.
+Theorem C16_set_remove_frame : forall s k k', hkey_eqb k k' = false -> set_find k' (set_del k s) = set_find k' s.
+Proof. exact set_find_del_other. Qed.
+Theorem C16_set_union_mem : forall b a k, set_mem k (set_union a b) = set_mem k b || set_mem k a.
+Proof. exact set_mem_union. Qed.
+Theorem C16_set_intersection_mem : forall a b k, set_mem k (set_inter a b) = set_mem k a && set_mem k b.
+Proof. exact set_mem_inter. Qed.
+
+(* ---------------------------------------------------------------- byte_slices *)
+
+(* The full statement is false of the code: a slice of a byte_slice shares the backing array. *)
+Theorem C16_refuted_byteslice_alias : exists ops,
+  babs (fst (brun (BS [] []) ops)) <> fst (rbrun [] ops).
+Proof.
+  exists [BNew [1; 2; 3; 4]; BSlice 0 (Some (VInt 1)) (Some (VInt 3)); BSetItem 1 (VInt 0) (VStr [120])].
+  vm_compute. discriminate.
+Qed.
+
+(* Without item assignment, byte_slices (index, slice with shared arrays, clone, len, +) refine
+   independent byte strings for all operation sequences. *)
+Theorem C16_byteslice_refines : forall ops st, bwf st -> forallb (fun o => negb (is_bset o)) ops = true ->
+  rbrun (babs st) ops = (babs (fst (brun st ops)), snd (brun st ops)) /\ bwf (fst (brun st ops)).
+Proof. exact brun_refines. Qed.
+
+(* ---------------------------------------------------------------- strings are indexed and sliced by code point *)
+
+(* []rune(s) inverts UTF-8 encoding on every sequence of Unicode scalar values ... *)
+Theorem C16_utf8_round_trip : forall cps, forallb valid_cp cps = true -> runes_of (utf8_string cps) = cps.
+Proof. exact runes_utf8_string. Qed.
+
+(* ... so indexing, slicing and len of a string are those of its list of code points. *)
+Theorem C16_str_get : forall cps k, forallb valid_cp cps = true ->
+  str_get (utf8_string cps) k = match cp_get cps k with Ok c => Ok (VStr (utf8_string c)) | Er e => Er e end.
+Proof. exact str_get_by_code_point. Qed.
+Theorem C16_str_slice : forall cps lo hi, forallb valid_cp cps = true ->
+  str_slice (utf8_string cps) lo hi = match cp_slice cps lo hi with Ok c => Ok (VStr (utf8_string c)) | Er e => Er e end.
+Proof. exact str_slice_by_code_point. Qed.
+Theorem C16_str_len : forall cps, forallb valid_cp cps = true -> str_len (utf8_string cps) = Z.of_nat (length cps).
+Proof. exact str_len_by_code_point. Qed.
+Theorem C16_cp_get_spec : forall cps i,
+  cp_get cps (VInt i) =
+  let n := Z.of_nat (length cps) in
+  if (- n <=? i) && (i <? n) then Ok [nth (Z.to_nat (i mod n)) cps 0] else Er EIndex.
+Proof. exact cp_get_spec. Qed.
+
 (* ---------------------------------------------------------------- non-vacuity *)
 
 Example C16_wf_store_sat : wf_store [OList (GS [VInt 1; VInt 2; VNil] 2); OMap []; OSet []].
@@ -143,3 +231,11 @@ Example C16_run_example :
   snd (crun [] [NewList [VInt 1; VInt 2; VInt 3]; Insert 0 (VInt (-1)) VNil; Pop 0 (VInt 0); Get 0 (VInt (-1))])
   = [RRef 0; RRef 0; RVal (VInt 1); RVal (VInt 3)].
 Proof. vm_compute. reflexivity. Qed.
+Example C16_bwf_sat : bwf (BS [[1; 2; 3]] [BO 0 1 2]).
+Proof. repeat constructor. Qed.
+Example C16_valid_cps_sat : forallb valid_cp [104; 233; 19990; 128512] = true /\ valid_cp 55296 = false.
+Proof. split; reflexivity. Qed.
+Example C16_str_example : str_get (utf8_string [104; 233; 19990]) (VInt (-1)) = Ok (VStr [228; 184; 150]).
+Proof. vm_compute. reflexivity. Qed.
+Example C16_keys_nodup_sat : keys_nodup (map fst [([97], VInt 1); ([98], VNil)]) = true.
+Proof. reflexivity. Qed.
